@@ -24,3 +24,7 @@ func VerifC12Minimize(r *Resolver, name string, qtype uint16, level int, nomin b
 
 // VerifC12QnameMinLevel reads the configured minimisation level.
 func VerifC12QnameMinLevel(r *Resolver) int { return r.qnameMinLevel }
+
+// VerifC12DNSSECWork exposes the ledger-backed DNSSEC work budget the resolver
+// hands to the dnssec package (Resolver.dnssecWork).
+func VerifC12DNSSECWork(r *Resolver, ctx context.Context) dnssecWorkBudget { return r.dnssecWork(ctx) }
